@@ -27,6 +27,26 @@ pub fn read_runs(path: &str) -> Vec<Run> {
     out
 }
 
+/// Watchdog: a run that does not end (the code under test spins) kills the process, which the orchestrator records as a
+/// death in that run, like an abort.
+static RUN_STARTED: std::sync::atomic::AtomicU64 = std::sync::atomic::AtomicU64::new(0);
+
+fn now_ms() -> u64 {
+    std::time::SystemTime::now().duration_since(std::time::UNIX_EPOCH).map(|d| d.as_millis() as u64).unwrap_or(0)
+}
+
+pub fn start_watchdog(budget_s: u64) {
+    RUN_STARTED.store(now_ms(), std::sync::atomic::Ordering::Relaxed);
+    std::thread::spawn(move || loop {
+        std::thread::sleep(std::time::Duration::from_millis(500));
+        let started = RUN_STARTED.load(std::sync::atomic::Ordering::Relaxed);
+        if now_ms().saturating_sub(started) > budget_s * 1000 {
+            eprintln!("PANIC: watchdog: one run did not end within {budget_s} s (the code under test does not terminate)");
+            std::process::abort();
+        }
+    });
+}
+
 pub struct Trace {
     w: BufWriter<std::fs::File>,
     pub events: u64,
@@ -47,6 +67,7 @@ impl Trace {
         // the process, the orchestrator knows which run did it
         if v["ev"] == "reset" {
             self.w.flush().expect("flush trace");
+            RUN_STARTED.store(now_ms(), std::sync::atomic::Ordering::Relaxed);
         }
     }
     pub fn finish(mut self) {
